@@ -237,11 +237,25 @@ def equals_an_inferred_literal(value, v) -> bool:
     if not isinstance(value, (list, tuple, dict, set, frozenset)):
         return False
     try:
-        from pyanalyze.value import KnownValue, flatten_values
+        from pyanalyze.value import KnownValue, SequenceValue, flatten_values
 
         for m in flatten_values(v, unwrap_annotated=True):
             if isinstance(m, KnownValue) and type(m.val) is type(value) and m.val == value:
                 return True
+            # the merged literal may sit inside a display: [[Num.ONE], y] inferred <list containing [Literal[[1]], ...]>
+            if isinstance(m, SequenceValue) and m.typ is type(value) and isinstance(value, (list, tuple)) \
+                    and not any(many for many, _ in m.members) and len(m.members) == len(value):
+                merged = 0
+                for e, (_, mv) in zip(value, m.members):
+                    if ty.member(e, ty.from_value(mv)) is True:
+                        continue
+                    if equals_an_inferred_literal(e, mv):
+                        merged += 1
+                    else:
+                        break
+                else:
+                    if merged:
+                        return True
     except Exception:  # noqa: BLE001
         pass
     return False
@@ -328,6 +342,30 @@ def _falsy_member_of_always_true_type(params, args) -> bool:
                 c = m.extra if m.kind == "Cls" else object
                 if "__bool__" not in dir(c) and "__len__" not in dir(c) and c is not type(o):
                     return True
+    return False
+
+
+def _tests_truthiness_of_a_variable(minsrc: str, fname: str) -> bool:
+    """The minimal program uses a bare name / subscript / attribute path as a truth value somewhere that `features`
+    does not describe: a while test, the operand of `not`, a non-final operand of and/or - also when the result is
+    only stored (`ok = not x`, `ok = x or y`)."""
+    tree = ast.parse(minsrc)
+    fn = next(n for n in tree.body if isinstance(n, ast.FunctionDef) and n.name == fname)
+
+    def plain(e) -> bool:
+        while isinstance(e, ast.UnaryOp) and isinstance(e.op, ast.Not):
+            e = e.operand
+        return isinstance(e, (ast.Name, ast.Subscript, ast.Attribute))
+
+    for node in ast.walk(fn):
+        if isinstance(node, ast.UnaryOp) and isinstance(node.op, ast.Not) and plain(node.operand):
+            return True
+        if isinstance(node, ast.BoolOp) and any(plain(v) for v in node.values[:-1]):
+            return True
+        if isinstance(node, (ast.While, ast.If, ast.IfExp, ast.Assert)) and plain(node.test):
+            return True
+        if isinstance(node, ast.comprehension) and any(plain(i) for i in node.ifs):
+            return True
     return False
 
 
@@ -463,18 +501,18 @@ def mechanism_key(minkey: str, minsrc: str, fname: str, params=None, args=None, 
     node, mismatch = parts[0], parts[-1]
     if mismatch.endswith("not in Never"):
         mismatch = mismatch.split(" not in ")[0] + " reached Never"
-    if mismatch.endswith("reached Never") and _union_valued_stored_condition(minsrc, fname):
-        return "stored-condition|union-valued-condition-adds-its-constraint-twice-at-one-node-and-narrows-to-Never"
-    if mismatch.endswith("reached Never") and params is not None and args is not None and _instance_of_two_unrelated_classes(minsrc, fname, params, args):
-        return "intersection|instance-of-two-unrelated-classes-is-narrowed-away"
     feats = features(minsrc, fname)
     # a bare name, or a subscript/attribute path (`if c[0]:`), used as a condition is a truthiness test
     truthy_feats = ("truthy" in feats) or node in ("UnaryOp", "BoolOp") or bool(
-        re.search(r"(?:if|ifexp|assert|guard)\[[^\]]*\b(?:Subscript|Attribute)\b", feats))
+        re.search(r"(?:if|ifexp|assert|guard)\[[^\]]*\b(?:Subscript|Attribute)\b", feats)) or _tests_truthiness_of_a_variable(minsrc, fname)
     if params is not None and truthy_feats and _falsy_member_of_always_true_type(params, args):
         return "truthiness|falsy-member-of-type-assumed-always-true"
     if args is not None and (_cross_type_equal(minsrc, fname, args) or _runtime_cross_type_equal(minsrc, fname, entry or fname, args)):
         return "equality-narrowing|argument-equals-literal-of-other-type"
+    if _stored_condition_readded(minsrc, fname, node_src, lineno):
+        return STORED_CONDITION_KEY
+    if mismatch.endswith("reached Never") and params is not None and args is not None and _instance_of_two_unrelated_classes(minsrc, fname, params, args):
+        return "intersection|instance-of-two-unrelated-classes-is-narrowed-away"
     if node_src and lineno and _composite_read_after_branch_that_assigned_it(minsrc, fname, node_src, lineno):
         return "composite|x[const]-after-a-branch-that-assigned-it-forgets-the-path-that-did-not"
     if node in ("Name", "Subscript") and node_src and _item_assigned(minsrc, fname, node_src):
@@ -532,25 +570,61 @@ def _instance_of_two_unrelated_classes(minsrc: str, fname: str, params, args) ->
     return False
 
 
-def _union_valued_stored_condition(minsrc: str, fname: str) -> bool:
-    """Observes pyanalyze on the minimal program: some if/while/conditional-expression/assert of `fname` tests a stored
-    condition (a bare name, possibly negated) whose inferred value is a union with the narrowing constraint attached to
-    the members of the union (`ok = x != 0` with x: int | None is `bool | Any`, each member carrying the constraint)."""
+STORED_CONDITION_KEY = "stored-condition|constraint-added-again-at-the-same-node-replaces-the-definitions-it-restricts-and-narrows-to-Never"
+
+
+def _stored_condition_readded(minsrc: str, fname: str, node_src, lineno) -> bool:
+    """Observes pyanalyze on the minimal program. True when the violating node reads a variable restricted by a STORED
+    condition (an if/while/conditional-expression/assert test that is a bare name, possibly negated, whose inferred
+    value carries a narrowing constraint), at or after that test, and the constraint is added more than once at that
+    test node:
+      (A) the stored condition's value is a union with the constraint attached to each member (`ok = x != 0` with
+          x: int | None is `bool | Any`): the same constraint is applied twice in one visit; or
+      (B) the test lies in the body of a loop and the condition was stored outside it: the body is visited again with
+          only the definitions from the end of the previous pass.
+    Either way the fake definition node of the constraint ends up restricting (only) itself."""
     from vp.props.c02 import condition_carried_by_each_union_member
 
+    if not node_src or not lineno:
+        return False
     try:
+        from pyanalyze.stacked_scopes import NULL_CONSTRAINT, extract_constraints
+
+        read = {n.id for n in ast.walk(ast.parse(node_src, mode="eval")) if isinstance(n, ast.Name)}
         tree = ast.parse(minsrc)
         res = harness.run(minsrc, tree=tree, annotate=True, kwargs=harness.constructor_kwargs("tests", C01_OVERRIDES, fresh=True))
         if res.exception is not None:
             return False
         fn = next(n for n in tree.body if isinstance(n, ast.FunctionDef) and n.name == fname)
+        parents = instrument.parent_map(fn)
         for node in ast.walk(fn):
-            if isinstance(node, (ast.If, ast.While, ast.IfExp, ast.Assert)):
-                test = node.test
-                while isinstance(test, ast.UnaryOp) and isinstance(test.op, ast.Not):
-                    test = test.operand
-                if isinstance(test, ast.Name) and condition_carried_by_each_union_member(getattr(test, "inferred_value", None)):
-                    return True
+            if not isinstance(node, (ast.If, ast.While, ast.IfExp, ast.Assert)):
+                continue
+            test = node.test
+            while isinstance(test, ast.UnaryOp) and isinstance(test.op, ast.Not):
+                test = test.operand
+            okval = getattr(test, "inferred_value", None)
+            if not isinstance(test, ast.Name) or okval is None or test.lineno > lineno:
+                continue
+            cons = extract_constraints(okval)
+            if cons is NULL_CONSTRAINT:
+                continue
+            restricted = set()
+            for c in [*cons.apply(), *cons.invert().apply()]:
+                vn = c.varname.get_varname() if c.varname is not None else None
+                restricted.add(str(getattr(vn, "varname", vn)).split(".")[0].split("[")[0])
+            restricted.discard(test.id)
+            if not (restricted & read):
+                continue
+            if condition_carried_by_each_union_member(okval):
+                return True
+            cur = node
+            while cur in parents:
+                cur = parents[cur][0]
+                if isinstance(cur, (ast.For, ast.While)) and cur is not node:
+                    stored_inside = any(isinstance(n, ast.Name) and n.id == test.id and isinstance(n.ctx, ast.Store) for n in ast.walk(cur))
+                    if not stored_inside:
+                        return True
     except Exception:  # noqa: BLE001
         pass
     return False
